@@ -80,11 +80,15 @@ def run_batches(fam, report, batches, invariants, properties, log=print, crossch
                 heap="12g"):
     """batches: list of lists of (spec, cfg).  Fills `report`.  Returns list of per-DUT stats."""
     all_stats = []
-    for bi, batch in enumerate(batches):
+    queue = [(list(b), list(invariants), list(properties)) for b in batches]
+    bi = 0
+    while queue:
+        batch, invariants, properties = queue.pop(0)
+        bi += 1
         remaining = list(batch)
         nviol = 0
         while remaining:
-            log("batch %d/%d: %d DUT(s)" % (bi + 1, len(batches), len(remaining)))
+            log("batch %d (%d more queued): %d DUT(s)" % (bi, len(queue), len(remaining)))
             gl = GraphLoop(fam.graph_module, fam.factory_path, remaining, invariants=invariants,
                            properties=properties, hint=fam.hint, spec_name=fam.spec_name, shim=fam.shim,
                            log=log, tlc_timeout=tlc_timeout, spec_budget=spec_budget, heap=heap)
@@ -139,12 +143,20 @@ def run_batches(fam, report, batches, invariants, properties, log=print, crossch
             text = "%s violated by %s after %d cycles%s" % (
                 tclause, fam.describe(spec), len(prefix),
                 " (lasso, loop of %d cycles repeated forever)" % len(loop) if loop else "")
-            report.violation(sig, {"family": fam.graph_module, "factory": fam.factory_path, "spec": spec,
+            new = report.violation(sig, {"family": fam.graph_module, "factory": fam.factory_path, "spec": spec,
                                    "cfg": tcfg, "schedule": [list(x) for x in sched[:2000]],
                                    "prefix_len": len(prefix), "loop_len": len(loop) if loop else 0,
                                    "trace_module": fam.trace_module, "trace_invariants": tinv,
                                    "observed": ev[:2000], "clause": tclause}, text)
             nviol += 1
+            if not new:
+                # a listed known finding: the rest of this DUT's clauses are still explored,
+                # in a follow-up run without the clause that is known to fail
+                if clause == "temporal":
+                    bad = res.temporal_name
+                    queue.append(([(spec, cfg)], list(invariants), [p for p in properties if p != bad]))
+                else:
+                    queue.append(([(spec, cfg)], [i for i in invariants if i != clause], list(properties)))
             remaining = [x for i, x in enumerate(remaining) if i != d - 1]
             if nviol >= max_violations_per_batch:
                 log("  too many violations in this batch; remaining DUTs of the batch skipped")
